@@ -160,6 +160,8 @@ namespace riddle
                         error("invalid numeric literal..");
                         return nullptr;
                     default:
+                        if (dec.size() > 18)
+                            error("numeric literal out of range..");
                         return mk_rational_token("", dec);
                     }
                 }
@@ -242,10 +244,14 @@ namespace riddle
                             error("invalid numeric literal..");
                             return nullptr;
                         default:
+                            if (intgr.size() + dcml.size() > 18)
+                                error("numeric literal out of range..");
                             return mk_rational_token(intgr, dcml);
                         }
                 }
                 default:
+                    if (intgr.size() > 18)
+                        error("numeric literal out of range..");
                     return mk_integer_token(intgr);
                 }
         }
